@@ -29,7 +29,7 @@ type cfgAssign struct {
 
 type cfgWorld struct {
 	base, dirA, dirB, dirC string
-	portA, portB, portD   int
+	portA, portB, portD    int
 }
 
 func freePort() int {
